@@ -94,6 +94,10 @@ func runC06(c *core.Ctx) {
 				}
 			}
 			if adv == nil {
+				// the removal may be written once, for a node at any position (`unlink(node)`), and be handed the end node
+				if okG, dG, isG := c06generalUnlink(p, f, spec.end); isG {
+					return okG, dG
+				}
 				return false, fmt.Sprintf("%s does not advance %s to node.%s", spec.name, spec.end, spec.fwd)
 			}
 			// the removed node is the old end
@@ -312,21 +316,32 @@ func runC06(c *core.Ctx) {
 				return false
 			}
 			for _, m := range core.EdgeCmps(b) {
-				if m.Op == token.EQL && core.IsNilConst(m.Y) && (c06isLoad(m.X, c06Q+".first", nil) || c06isLoad(m.X, c06Q+".last", nil)) {
+				isEnd := c06isLoad(m.X, c06Q+".first", nil) || c06isLoad(m.X, c06Q+".last", nil)
+				if prm, isP := core.Resolve(m.X).(*ssa.Parameter); isP && prm.Parent() != f && c06isNodePtr(prm.Type()) {
+					isEnd = true // the end node handed to a removal helper
+				}
+				if m.Op == token.EQL && core.IsNilConst(m.Y) && isEnd {
 					// only the initial emptiness test (its block is the entry successor)
-					if len(b.Preds) == 1 && b.Preds[0] == f.Blocks[0] {
+					if len(b.Preds) == 1 && b.Preds[0] == b.Parent().Blocks[0] {
 						return true
 					}
 				}
 			}
 			return false
 		}
-		min, max := core.PathCount(f, func(ins ssa.Instruction) int {
-			if isDelta(ins) {
-				return 1
+		// (the adjustment may sit in an unexported helper doing the removal / insertion)
+		min, max := core.DeepCount(p, f, isDelta, emptyEdge)
+		for _, fd := range core.DeepFind(p, f, func(ins ssa.Instruction) bool {
+			st, ok := ins.(*ssa.Store)
+			return ok && core.FieldKey(st.Addr) == c06Q+".count"
+		}) {
+			if len(fd.Stack) > 0 {
+				delete(countWriters, core.FuncName(fd.Ins.Parent()))
+				if !isDelta(fd.Ins) {
+					anyOther = true
+				}
 			}
-			return 0
-		}, emptyEdge)
+		}
 		c.Check(min == 1 && max == 1 && !anyOther, "R3", c06Q+"."+spec.name+"/count", p.Pos(f.Pos()), "count changes by exactly one on every (non-empty) path", fmt.Sprintf("count is adjusted %d..%d times on a path (must be exactly 1)%s: Count() no longer equals the number of stored items", min, max, map[bool]string{true: " or overwritten otherwise", false: ""}[anyOther]))
 	}
 	if f := q("Clear"); f != nil {
@@ -361,16 +376,12 @@ func runC06(c *core.Ctx) {
 		okAll := true
 		detail := "reports " + spec.sentinel + " exactly when " + spec.end + " == nil; otherwise the node's value with a nil error"
 		nRet := 0
-		core.Instrs(f, func(ins ssa.Instruction) {
-			r, isR := ins.(*ssa.Return)
-			if !isR || r.Block() == f.Recover {
-				return
-			}
+		// one return: decided by the emptiness test of the end node, sentinel when empty, else the node's value and nil
+		judge := func(rv []ssa.Value, cmps []core.Cmp, isEnd func(ssa.Value) bool, up func(ssa.Value) ssa.Value) {
 			nRet++
-			rv := core.RetVals(r)
 			empty, known := false, false
-			for _, m := range core.EdgeCmps(r.Block()) {
-				if core.IsNilConst(m.Y) && c06isLoad(m.X, c06Q+"."+spec.end, f.Params[0]) && (m.Op == token.EQL || m.Op == token.NEQ) {
+			for _, m := range cmps {
+				if core.IsNilConst(m.Y) && isEnd(m.X) && (m.Op == token.EQL || m.Op == token.NEQ) {
 					// the first emptiness test only
 					if !known {
 						empty, known = m.Op == token.EQL, true
@@ -382,7 +393,7 @@ func runC06(c *core.Ctx) {
 				return
 			}
 			if empty {
-				if core.GlobalName(rv[1]) != spec.sentinel {
+				if core.GlobalName(up(rv[1])) != spec.sentinel {
 					okAll, detail = false, "the empty case does not report "+spec.sentinel
 				}
 				return
@@ -397,7 +408,7 @@ func runC06(c *core.Ctx) {
 			if u, isU := v.(*ssa.UnOp); isU && u.Op == token.MUL {
 				if c06isLoad(u.X, c06Node+".Val", nil) {
 					fa := core.Resolve(u.X).(*ssa.UnOp).X.(*ssa.FieldAddr)
-					if c06isLoad(core.FieldOwner(fa), c06Q+"."+spec.end, f.Params[0]) {
+					if isEnd(core.FieldOwner(fa)) {
 						okV = true
 					}
 				}
@@ -405,6 +416,66 @@ func runC06(c *core.Ctx) {
 			if !okV {
 				okAll, detail = false, "the value returned is not the value stored in the "+spec.end+" node"
 			}
+		}
+		recvF := ssa.Value(f.Params[0])
+		isEndF := func(v ssa.Value) bool { return c06isLoad(v, c06Q+"."+spec.end, recvF) }
+		core.Instrs(f, func(ins ssa.Instruction) {
+			r, isR := ins.(*ssa.Return)
+			if !isR || r.Block() == f.Recover {
+				return
+			}
+			rv := core.RetVals(r)
+			// `return q.removeNode(q.end, …)`: the returns of the removal helper, its node parameter being the end node
+			var hc *ssa.Call
+			if ex, isE := core.Resolve(rv[0]).(*ssa.Extract); isE && ex.Index == 0 {
+				hc, _ = ex.Tuple.(*ssa.Call)
+			}
+			if len(rv) == 2 && hc != nil {
+				if ex1, isE1 := core.Resolve(rv[1]).(*ssa.Extract); !isE1 || ex1.Tuple != ssa.Value(hc) || ex1.Index != 1 {
+					hc = nil
+				}
+			}
+			// `return q.unlink(node), nil`: a helper returning the value only
+			single := false
+			if hc == nil {
+				if cc, isC := core.Resolve(rv[0]).(*ssa.Call); isC && cc.Call.Signature().Results().Len() == 1 && len(rv) == 2 {
+					hc, single = cc, true
+				}
+			}
+			if hc != nil {
+				h := core.Callee(&hc.Call)
+				idx := -1
+				if h != nil && p.InRepo(h) && len(h.Blocks) > 0 && h.Object() != nil && !h.Object().Exported() {
+					for i, a := range hc.Call.Args {
+						if i < len(h.Params) && isEndF(a) {
+							idx = i
+						}
+					}
+				}
+				if idx >= 0 {
+					prm := ssa.Value(h.Params[idx])
+					up := func(v ssa.Value) ssa.Value {
+						if q2, isP := core.Resolve(v).(*ssa.Parameter); isP && q2.Parent() == h {
+							for i, hp := range h.Params {
+								if hp == q2 && i < len(hc.Call.Args) {
+									return hc.Call.Args[i]
+								}
+							}
+						}
+						return v
+					}
+					for _, rc := range core.ReturnCases(h) {
+						cmps := append(append([]core.Cmp{}, core.EdgeCmps(r.Block())...), rc.Cmps()...)
+						vals := rc.Vals
+						if single {
+							vals = []ssa.Value{rc.Vals[0], rv[1]}
+						}
+						judge(vals, cmps, func(v ssa.Value) bool { return core.Resolve(v) == prm || isEndF(v) }, up)
+					}
+					return
+				}
+			}
+			judge(rv, core.EdgeCmps(r.Block()), isEndF, func(v ssa.Value) ssa.Value { return v })
 		})
 		c.Check(okAll && nRet >= 2, "R4", c06Q+"."+spec.name, p.Pos(f.Pos()), detail, detail)
 	}
@@ -828,4 +899,93 @@ func c06clearedBefore(call *ssa.Call, node ssa.Value) map[string]bool {
 		}
 	}
 	return cleared
+}
+
+// c06generalUnlink: f removes its end node through a helper written for a node at any position:
+//
+//	prev, next := node.Prev, node.Next
+//	if prev == nil { q.first = next } else { prev.Next = next }
+//	if next == nil { q.last = prev } else { next.Prev = prev }
+//
+// handed the current end (q.first for Shift, q.last for Pop). For the end node this is the end-specific removal
+// provided first.Prev == nil and last.Next == nil - an invariant that insertion (R2), node reuse (R5) and this very
+// removal preserve (the new first gets the removed node's nil Prev). isG reports whether f has this form at all.
+func c06generalUnlink(p *core.Prog, f *ssa.Function, end string) (ok bool, detail string, isG bool) {
+	recv := ssa.Value(f.Params[0])
+	var u *ssa.Function
+	nodeIdx := -1
+	core.Instrs(f, func(ins ssa.Instruction) {
+		call, isC := ins.(*ssa.Call)
+		if !isC {
+			return
+		}
+		g := core.Callee(&call.Call)
+		if g == nil || !p.InRepo(g) || len(g.Blocks) == 0 || g.Object() == nil || g.Object().Exported() || len(call.Call.Args) < 2 || core.Resolve(call.Call.Args[0]) != recv {
+			return
+		}
+		for i, a := range call.Call.Args {
+			if i > 0 && i < len(g.Params) && c06isNodePtr(a.Type()) && c06isLoad(a, c06Q+"."+end, recv) {
+				u, nodeIdx = g, i
+			}
+		}
+	})
+	if u == nil {
+		return false, "", false
+	}
+	qv, node := ssa.Value(u.Params[0]), ssa.Value(u.Params[nodeIdx])
+	isPrev := func(v ssa.Value) bool { return c06isLoad(v, c06Node+".Prev", node) }
+	isNext := func(v ssa.Value) bool { return c06isLoad(v, c06Node+".Next", node) }
+	// no store to the node's own links before they are read is needed: the loads are recognised by their address
+	noNode := func(b *ssa.BasicBlock) bool {
+		// "there is no such node" (the list is empty): nothing to unlink
+		for _, m := range core.EdgeCmps(b) {
+			if m.Op == token.EQL && core.IsNilConst(m.Y) && core.Resolve(m.X) == node {
+				return true
+			}
+		}
+		return false
+	}
+	pair := func(endField, linkField string, isThis, isOther func(ssa.Value) bool) (int, int) {
+		return core.PathCount(u, func(ins ssa.Instruction) int {
+			st, isS := ins.(*ssa.Store)
+			if !isS {
+				return 0
+			}
+			fa, isFA := st.Addr.(*ssa.FieldAddr)
+			if !isFA || !isOther(st.Val) {
+				return 0
+			}
+			key, owner := core.FieldKey(fa), core.Resolve(core.FieldOwner(fa))
+			for _, m := range core.EdgeCmps(st.Block()) {
+				if !core.IsNilConst(m.Y) || !isThis(m.X) {
+					continue
+				}
+				if m.Op == token.EQL && key == c06Q+"."+endField && owner == qv {
+					return 1
+				}
+				if m.Op == token.NEQ && key == c06Node+"."+linkField && isThis(owner) {
+					return 1
+				}
+			}
+			return 0
+		}, noNode)
+	}
+	a1, b1 := pair("first", "Next", isPrev, isNext)
+	a2, b2 := pair("last", "Prev", isNext, isPrev)
+	if a1 != 1 || b1 != 1 || a2 != 1 || b2 != 1 {
+		return false, fmt.Sprintf("the general removal %s does not, on every path, relink exactly once on each side (prev side %d..%d: first ← next when prev == nil, else prev.Next ← next; next side %d..%d: last ← prev when next == nil, else next.Prev ← prev): a neighbour keeps pointing at the recycled node", core.FuncName(u), a1, b1, a2, b2), true
+	}
+	// nothing else writes the ends or the links of other nodes in the helper
+	extra := ""
+	for _, s := range c06stores(u) {
+		if (s.field == c06Q+".first" || s.field == c06Q+".last") && s.base == qv {
+			if !(isNext(s.st.Val) || isPrev(s.st.Val)) {
+				extra = p.InstrPos(s.st)
+			}
+		}
+	}
+	if extra != "" {
+		return false, "the general removal writes an end pointer with something other than the removed node's neighbour at " + extra, true
+	}
+	return true, fmt.Sprintf("%s handed to the general removal %s: prev side and next side each relinked exactly once on every path", end, core.FuncName(u)), true
 }
